@@ -420,7 +420,7 @@ def get_task(tid):
 
 
 def _clear_dead_jobs():
-    to_remove = set()
+    seen_dead = {}
     tasks = get_tasks()
     # list() creates a copy so we iterate over a static snapshot, not the
     # live deque. This function may be called from the SIGHUP signal
@@ -429,12 +429,17 @@ def _clear_dead_jobs():
     # them causes RuntimeError.
     for tid in list(tasks):
         try:
-            proc = get_task(tid)["obj"]
+            job = get_task(tid)
         except KeyError:
-            to_remove.add(tid)
+            seen_dead[tid] = None
             continue
+        proc = job["obj"]
         if proc is None or proc.poll() is not None:
-            to_remove.add(tid)
+            seen_dead[tid] = job
+    # Another thread may have pruned a dead job and re-used its number while we
+    # were polling: only drop a number that still refers to the job we saw.
+    jobs = get_jobs()
+    to_remove = {tid for tid, job in seen_dead.items() if jobs.get(tid) is job}
     if to_remove:
         # Replace the deque contents atomically to avoid racing with
         # the main thread's iteration over the same deque.
